@@ -36,17 +36,17 @@ CLAIMED = {
     "C03": dict(
         category="proof",
         text="The child(m,k,v) postcondition proved for every selector (C01 contracts) fixes path, parts, root and parent of each produced match; JSONPointer.from_match is proved to reuse the parts without re-parsing and "
-        "_getitem/_index to resolve exact-typed parts. The string-level clauses (normalized-path syntax, canonical_string escape, path re-query by identity, pointer text re-parse) are bounded (monitors/c03.py).",
+        "_getitem/_index to resolve exact-typed parts. The pointer text re-parse: JSONPointer._encode / _parse (escape decoding off) / __truediv__ are proved to be the compositions of str.replace / split / join written in specs/rfc6901.py, whose string laws (parse(text(ts)) = ts for every token sequence, text(parse(s)) = s on valid texts, injectivity) are proved by induction in lemmas/PointerText.lean (core Lean 4, re-checked in every run, its model of the three library functions compared with CPython on 19 531 strings). The other string-level clauses (normalized-path syntax, canonical_string escape, path re-query by identity, escape decoding switched on) are bounded (monitors/c03.py).",
         ref="5/C03",
         technique=TECH + "bounded re-query / re-parse of every match of the query universe",
-        note=TRUST + "canonical_string and the pointer text encoder/decoder are uninterpreted in the proofs.",
+        note=TRUST + "canonical_string is uninterpreted in the proofs; str.replace / split / join are uninterpreted for the solver, their algebra comes from the Lean lemmas (library model assumed, cross-checked bounded).",
     ),
     "C04": dict(
         category="proof",
         text="_index (canonical-decimal tokens only), _getitem (complete RFC 6901 section 4 case table incl. strings/scalars, '-', out-of-range, non-canonical), resolve/exists/resolve_parent (fold rule) are proved against specs/rfc6901.py. "
-        "The parse/unescape string law is bounded (monitors/c04.py: every location of the document universe + one-token mutations).",
+        "JSONPointer._encode / _parse (escape decoding off) / __truediv__ are proved to be the compositions of str.replace / split / join written in specs/rfc6901.py, whose string laws (parse(text(ts)) = ts for every token sequence, text(parse(s)) = s on valid texts, injectivity) are proved by induction in lemmas/PointerText.lean (core Lean 4, re-checked in every run, its model of the three library functions compared with CPython on 19 531 strings). With escape / URI decoding switched on the text decoder is bounded (monitors/c04.py: every location of the document universe + one-token mutations).",
         ref="5/C04",
-        technique=TECH + "regex-language membership for token classes, fold rule for reduce; bounded enumeration for the text parser",
+        technique=TECH + "regex-language membership for token classes, fold rule for reduce; Lean 4 induction for the escape / split / join round trips; bounded enumeration for the optional decoders",
         note=TRUST + "'#'/'~'-prefixed tokens and leading blanks are outside the clause (as in the statement); list lengths are below 2**53.",
     ),
     "C05": dict(
@@ -60,8 +60,8 @@ CLAIMED = {
     ),
     "C08": dict(
         category="proof",
-        text="Relational obligations: each resolve_async / evaluate_async body is proved to produce the same yield sequence / value / exception as its sync twin on the same symbolic input (8 selectors, filter nodes, embedded queries, function calls). "
-        "Entry points, compound queries, async item getters and concurrent awaits are cross-checked bounded (monitors/c08.py).",
+        text="Relational obligations: each resolve_async / evaluate_async body is proved to produce the same yield sequence / value / exception as its sync twin on the same symbolic input (8 selectors, filter nodes, embedded queries, function calls, JSONPath.finditer_async, CompoundJSONPath.findall_async / finditer_async for any number of operands); documents given as JSON text or as a readable file are proved to give what the parsed value gives for the sync and the async entry points of simple and compound queries alike (a file is read once). "
+        "Environment-level entry points, async item getters and concurrent awaits are cross-checked bounded (monitors/c08.py).",
         ref="5/C08",
         technique=TECH + "relational (product) equivalence of sync/async twins; bounded differential run on one event loop",
         note=TRUST + "await e is e's synchronous contract (DESIGN 3.6); getitem_async is assumed to return what getitem returns (the statement's hypothesis). Scheduler interleavings are not explored.",
@@ -127,10 +127,10 @@ CLAIMED = {
     ),
     "C14": dict(
         category="proof",
-        text="Token-level operations proved: _index, __eq__ (== equality of string tokens), parent, is_relative_to, from_match. The text laws (parse/print round trip, from_parts spelling, join / slash navigation) are bounded exhaustively over short token sequences (monitors/c14.py).",
+        text="Token-level operations proved: _index, __eq__ (== equality of string tokens), parent, is_relative_to, from_match, and p / text == p's tokens followed by the text's tokens (__truediv__)." + """ JSONPointer._encode / _parse (escape decoding off) / __truediv__ are proved to be the compositions of str.replace / split / join written in specs/rfc6901.py, whose string laws (parse(text(ts)) = ts for every token sequence, text(parse(s)) = s on valid texts, injectivity) are proved by induction in lemmas/PointerText.lean (core Lean 4, re-checked in every run, its model of the three library functions compared with CPython on 19 531 strings).""" + " from_parts spelling with its optional decoders and join over several parts are bounded exhaustively over short token sequences (monitors/c14.py).",
         ref="5/C14",
-        technique=TECH + "exhaustive bounded enumeration of token sequences for the string laws (str.replace / split round trips need induction no solver here does)",
-        note=TRUST + "_encode/_parse are uninterpreted in the proofs.",
+        technique=TECH + "Lean 4 induction over List Char for the string laws (parse / print round trips, injectivity of the spelling); exhaustive bounded enumeration of token sequences for from_parts / join and as a cross-check",
+        note=TRUST + "At call sites _encode/_parse are summarised by uninterpreted functions; the Lean definitions of replace / split / join are assumed to be CPython's (compared on 19 531 strings per run).",
     ),
     "C15": dict(
         category="proof",
@@ -162,7 +162,7 @@ CLAIMED = {
         "The argparse definitions (file modes, option names), __main__, real files and encodings are bounded end to end (monitors/c18.py, in-process and through subprocesses).",
         ref="5/C18",
         technique=TECH + "postconditions over the effect trace of the real handler bodies with the library calls, json.dump/load, sys.exit and the streams as stated abstractions; bounded option-matrix enumeration end to end",
-        note=TRUST + "Which exception classes each library call can raise is the documented family (compile: syntax/type/index/name; findall: type; pointer.resolve: JSONPointerError and subclasses; patch.apply: JSONPatchError and subclasses; decoding: JSONDecodeError) - assumed here, decided for the library itself in C06/C07.",
+        note=TRUST + "Which exception classes each library call can raise is the documented family (compile: syntax/type/index/name; findall: type; pointer.resolve: JSONPointerError and subclasses; patch.apply: JSONPatchError and subclasses; decoding: JSONDecodeError, or UnicodeDecodeError for bytes that are no text) - assumed here, decided for the library itself in C06/C07.",
     ),
     "C19": dict(
         category="other",
@@ -176,7 +176,7 @@ CLAIMED = {
     ),
     "C20": dict(
         category="proof",
-        text="Composition over proved contracts: every selector produces well-located matches with exact-typed parts (C01/C03), from_match reuses the parts, _getitem/resolve_parent resolve them without conversion, and test/replace/remove are proved on the parent container (C05). The end-to-end composition is cross-checked bounded (monitors/c20.py).",
+        text="Composition over proved contracts: every selector produces well-located matches with exact-typed parts (C01/C03), from_match reuses the parts, _getitem/resolve_parent resolve them without conversion, and test/replace/remove are proved on the parent container (C05); the pointer's text form round-trips through the proved codec contracts and Lean lemmas (see C04). The end-to-end composition is cross-checked bounded (monitors/c20.py).",
         ref="5/C20",
         technique=TECH + "lemma over the selector, pointer and patch contracts; bounded end-to-end differential check",
         note=TRUST + "The whole-document lifting assumption of C05 applies.",
